@@ -1,7 +1,7 @@
 #!/bin/sh
 # Verify all listed changes of one property: lines "<prop> <k> <crate> <filter>" of the given table (default /tmp/seed/wave6.tsv)
-prop="$1"; tbl="${2:-/tmp/seed/wave6.tsv}"
+prop="$1"; tbl="${2:-${WAVE_ROOT:-/tmp/seed}/wave.tsv}"
 grep "^$prop " "$tbl" | while read p k crate filter; do
-  /verif/lib/wave_verify.sh "$p" "$k" "$crate" "$filter" > /tmp/seed/logs/$p-$k-verify.txt 2>&1
-  tail -1 /tmp/seed/logs/$p-$k-verify.txt
+  /verif/lib/wave_verify.sh "$p" "$k" "$crate" "$filter" > ${WAVE_ROOT:-/tmp/seed}/logs/$p-$k-verify.txt 2>&1
+  tail -1 ${WAVE_ROOT:-/tmp/seed}/logs/$p-$k-verify.txt
 done
